@@ -1049,6 +1049,37 @@ fn history(family: &str, seed: u64, idx: usize, thorough: bool, out: &mut impl W
             }
             let d = c.drain(60);
             c.s.trace.push(json!({"ev":"drain","quiescent":d.0,"rounds":d.1}));
+            // one history in four: the host is alone for a while (every client leaves), changes a value, excludes it afterwards,
+            // and only then somebody (re)joins: nothing detected while alone may leave later
+            if idx % 4 == 1 && !c.live.is_empty() {
+                for p in 1..c.peers() {
+                    c.s.disconnect(p);
+                }
+                for _ in 0..6 {
+                    c.s.step(0);
+                }
+                for _ in 0..c.rng.range(1, 3) {
+                    let h = *c.rng.pick(&c.live.clone());
+                    let t = *c.rng.pick(&TYS[..4]);
+                    let v = small_val(&mut c.rng, t);
+                    c.s.exclude(0, h, t, false);
+                    c.s.write(0, h, &v, &[]);
+                    for _ in 0..c.rng.range(1, 3) {
+                        c.s.step(0);
+                    }
+                    c.s.exclude(0, h, t, true);
+                }
+                for _ in 0..c.rng.range(6, 12) {
+                    c.s.step(0);
+                }
+                if c.peers() > 1 && c.rng.chance(1, 2) {
+                    c.s.connect(1);
+                    let ok = c.wait_connected(1, 60);
+                    c.s.trace.push(json!({"ev":"late_join","peer":1,"ok":ok,"rejoin":true}));
+                    let d = c.drain(60);
+                    c.s.trace.push(json!({"ev":"drain","quiescent":d.0,"rounds":d.1}));
+                }
+            }
             // a client that joins now receives the snapshot
             let cfgj = cfg_for(family);
             let id = c.s.add_client(cfgj, 2);
@@ -1085,10 +1116,20 @@ fn history(family: &str, seed: u64, idx: usize, thorough: bool, out: &mut impl W
                 }
             }
             let mut n = 1;
+            // one history in three is paced: every peer runs the same small number of frames between two arrivals, so that every
+            // frame offset between two kinds landing on one entity is walked (not only what random stepping happens to produce)
+            let paced = c.rng.chance(1, 3);
             for k in kinds.clone() {
+                c.s.trace.push(json!({"ev":"phase","writer":origin,"h":e,"ty":k.name(),"first":true}));
                 c.s.write(origin, e, &CVal::new(k, n), &[]);
                 n += 1;
-                if c.rng.chance(1, 2) {
+                if paced {
+                    let off = c.rng.below(5);
+                    for _ in 0..off {
+                        c.lockstep(1);
+                        std::thread::sleep(std::time::Duration::from_millis(1));
+                    }
+                } else if c.rng.chance(1, 2) {
                     c.random_steps();
                 } else if c.rng.chance(1, 2) {
                     // a second write while the first is still on its way through the receiver's fix systems
@@ -1098,6 +1139,9 @@ fn history(family: &str, seed: u64, idx: usize, thorough: bool, out: &mut impl W
                     n += 1;
                 }
             }
+            // the first arrivals are judged on their own: once drained every peer holds what the origin wrote
+            let d = c.drain(40);
+            c.s.trace.push(json!({"ev":"drain","quiescent":d.0,"rounds":d.1}));
             c.lockstep(3);
             // further writes to the same components at every frame offset 0..3
             for k in kinds.clone() {
@@ -1167,8 +1211,19 @@ fn history(family: &str, seed: u64, idx: usize, thorough: bool, out: &mut impl W
                     }
                 }
             }
+            // the rig starts to be used: the joints gain a component after the skinned entity exists, which moves them to an
+            // archetype younger than the skinned entity's (the snapshot then lists the skinned entity before its joints)
+            if !joints.is_empty() && c.rng.chance(1, 2) {
+                let w = c.any_peer();
+                for (k, j) in joints.clone().iter().enumerate() {
+                    let v = CVal::new(if c.rng.chance(1, 2) { Ty::A } else { Ty::Transform }, 50 + k as i64);
+                    c.s.write(w, *j, &v, &[]);
+                }
+                let d = c.drain(60);
+                c.s.trace.push(json!({"ev":"drain","quiescent":d.0,"rounds":d.1}));
+            }
             // a client that joins afterwards gets the SkinnedMesh through the snapshot
-            if c.rng.chance(1, 2) {
+            if c.rng.chance(2, 3) {
                 let shift = c.rng.below(5);
                 let id = c.s.add_client(cfg_for(family), shift);
                 c.nclients += 1;
